@@ -16,7 +16,7 @@ def run(tier, seed):
         opts_extra={"scalings": (1, 2, 10, 10000), "deviations": False},
         rule="every (kernel, index) meeting the hypothesis (every tensor that has the index - output included - "
              "stores it in a compressed level, every expanded product mentions it) x every joint structure: the "
-             "evaluate kernel is run with that dimension scaled x1, x2, x10, x10^4 with the stored entries kept, and "
+             "evaluate kernel, and the assemble kernel followed by the compute kernel, are run with that dimension scaled x1, x2, x10, x10^4 with the stored entries kept, and "
              "again with the entries moved to the far end of the enlarged dimension; the per-loop-site iteration "
              "counts and the total statement count of the abstract machine must be identical across all runs",
         assumptions=["work is measured in IR statements/loop iterations of the abstract machine, not wall-clock"],
